@@ -77,8 +77,29 @@ class YGen(np.random.Generator):
             return float(plan[1])
         return v
 
+    def _rare_vec(self, a, k, v):
+        # the same fault for an array draw uniform(low, high, size): one element becomes exactly `low` or exactly `high` (numpy
+        # documents that rounding may include the upper limit)
+        plan = RARE_PLAN.get(threading.get_ident())
+        if plan is None or not isinstance(v, np.ndarray) or v.size == 0 or v.dtype != np.float64:
+            return v
+        plan[2] += 1
+        if plan[2] != plan[0]:
+            return v
+        lim = (k.get('low', a[0] if len(a) > 0 else 0.0)) if plan[1] < 0.5 else (k.get('high', a[1] if len(a) > 1 else 1.0))
+        try:
+            lb = np.broadcast_to(np.asarray(lim, dtype=float), v.shape)
+        except (ValueError, TypeError):
+            return v
+        j = v.size // 2
+        v.reshape(-1)[j] = lb.reshape(-1)[j]
+        RARE_HITS[0] += 1
+        return v
+
     def uniform(self, *a, **k):
-        self._y('uniform'); return self._rare(a, k, super().uniform(*a, **k))
+        self._y('uniform')
+        v = super().uniform(*a, **k)
+        return self._rare_vec(a, k, v) if (a or k) else self._rare(a, k, v)
 
     def normal(self, *a, **k):
         self._y('normal'); return super().normal(*a, **k)
